@@ -380,6 +380,9 @@ func (p presT) formTags() []string {
 			k, f = p.B, p.BF
 		}
 		_, n := secretString(k, f, "xxxx")
+		if p.Kind == pBoth && k == sEmpty && f%2 == 1 {
+			n = "absent"
+		}
 		t = append(t, "form_secret="+n, "form_enc="+fencT[p.FEnc])
 	}
 	if p.Kind == pNearID {
@@ -781,7 +784,9 @@ func run(c caseT) outcome {
 	case pBoth:
 		basicID, basicSec, useBasic = wire(id, benc), wire(sec(c.Pres.B, c.Pres.BF), benc), true
 		cform.Set("client_id", id)
-		cform.Set("client_secret", sec(c.Pres.P, c.Pres.PF))
+		if !(c.Pres.P == sEmpty && c.Pres.PF%2 == 1) { // empty form secret: sent as client_secret= or (odd form index) not at all
+			cform.Set("client_secret", sec(c.Pres.P, c.Pres.PF))
+		}
 	case pXBasic:
 		basicID, basicSec, useBasic = id, wire(secret, benc), true
 		cform.Set("client_id", vid)
@@ -1468,6 +1473,21 @@ func systematic() []caseT {
 				mv++
 				rg := regT{Known: true, Meth: meth, MV: mv, App: 0, Grants: full(), HasKey: meth == 2}
 				cs = append(cs, caseT{Router: router, Endpoint: x.e, Grant: x.g, Cfg: subj, Reg: rg, Pres: fitting[meth], Tag: "block=subject_check"})
+			}
+			// (10) mixed placement (RFC 6749 3.2.1 allows client_id in the body next to HTTP Basic): the right / a wrong secret in the
+			// Basic header and client_id repeated in the body or the URL query, without client_secret, with an empty one, with a
+			// wrong one - Basic takes precedence on every handler of both routers
+			for _, meth := range []int{0, 1, 4, 2, 3} {
+				mv++
+				rg := regT{Known: true, Meth: meth, MV: mv, App: 0, Grants: full(), HasKey: meth == 2}
+				for _, plc := range []int{0, 1} {
+					for _, pr := range []presT{{Kind: pBoth, B: sRight, P: sEmpty, PF: 1}, {Kind: pBoth, B: sRight, P: sEmpty, PF: 0}, {Kind: pBoth, B: sRight, P: sWrong},
+						{Kind: pBoth, B: sWrong, P: sEmpty, PF: 1}, {Kind: pBoth, B: sWrong, P: sRight}} {
+						pr.Enc = (len(cs) + plc) % 3
+						pr.Pct = pr.Enc != 0
+						cs = append(cs, caseT{Router: router, Endpoint: x.e, Grant: x.g, Cfg: allOn, Reg: rg, Pres: pr, Pl: plT{Client: plc}, Tag: "block=basic_and_form_id"})
+					}
+				}
 			}
 			// (6) near misses of the grant_type value itself (other case, surrounding white space, keyword), with the artefact
 			// and the registration of the real grant and a fitting credential
